@@ -425,6 +425,9 @@ class Ctx:
                     else:
                         self.touch(child, depth - 1)
             return
+        if B is None and depth > -2 and isinstance(ty, (TSeq, TMap)):
+            self.touch_contents(sv, ty)
+            return
         if depth <= 0 or not isinstance(ty, (TObj, TAbs)):
             return
         for fname, fty in ty.fields.items():
@@ -432,9 +435,60 @@ class Ctx:
             if isinstance(self.resolve_ty(fty), (TObj, TAbs)):
                 self.assume(Z.Val.id(child.t) < self.alloc0)
                 self.touch(child, depth - 1)
-            elif B is not None and isinstance(self.resolve_ty(fty), (TSeq, TTuple)):
+            elif isinstance(self.resolve_ty(fty), (TSeq, TTuple, TMap)):
                 self.assume(Z.Val.id(child.t) < self.alloc0)
                 self.touch(child, depth - 1)
+
+    def content_inv(self, it, ety):
+        """shape facts about one item of a container (its own invariant, that it is a pre-state object, and - for objects -
+        the invariants of its declared fields)"""
+        ety = self.resolve_ty(ety)
+        if ety is None or isinstance(ety, TAny):
+            return []
+        out = [ety.inv(it)]
+        if isinstance(ety, TRef) and not isinstance(ety, TFn):
+            out.append(Z.Val.id(it) < self.alloc0)
+        if isinstance(ety, TObj) and getattr(ety, "exact_cls", True):
+            out.append(z3.Select(self.field_array("$cls"), Z.Val.id(it)) == self.E.classes.cid(ety.cls))
+        elif isinstance(ety, TAbs):
+            out.append(z3.Select(self.field_array("$cls"), Z.Val.id(it)) == self.E.classes.cid("abs:" + ety.name))
+        elif isinstance(ety, TSeq):
+            out.append(z3.Select(self.field_array("$len"), Z.Val.id(it)) >= 0)
+            out.append(z3.Select(self.field_array("$cls"), Z.Val.id(it)) == self.E.classes.cid("abs:$" + ety.kind))
+        elif isinstance(ety, TTuple):
+            out.append(z3.Select(self.field_array("$len"), Z.Val.id(it)) == len(ety.elems))
+            items = z3.Select(self.field_array("$item"), Z.Val.id(it))
+            for k, sub in enumerate(ety.elems):
+                out.extend(self.content_inv(z3.Select(items, z3.IntVal(k)), sub))
+        if isinstance(ety, (TObj, TAbs)):
+            for fname, fty in ety.fields.items():
+                fty = self.resolve_ty(fty)
+                if fty is not None and not isinstance(fty, TAny):
+                    ft = z3.Select(self.field_array(fname), Z.Val.id(it))
+                    out.append(fty.inv(ft))
+                    if isinstance(fty, TRef) and not isinstance(fty, TFn):
+                        out.append(Z.Val.id(ft) < self.alloc0)
+        return out
+
+    def touch_contents(self, sv, ty):
+        """the pre-state is well-shaped all the way into containers: every item of a sequence / every value of a map has
+        its declared shape (a quantified fact, assumed once at function entry)"""
+        if isinstance(ty, TSeq):
+            j = z3.Int("tcj")
+            items = z3.Select(self.field_array("$item"), self.ref_id(sv))
+            it = z3.Select(items, j)
+            facts = self.content_inv(it, ty.elem)
+            if facts:
+                n = z3.Select(self.field_array("$len"), self.ref_id(sv))
+                self.assume(z3.ForAll([j], z3.Implies(z3.And(0 <= j, j < n), z3.And(*facts)), patterns=[it]))
+        elif isinstance(ty, TMap):
+            k = z3.Const("tck", Z.Val)
+            vals = z3.Select(self.field_array("$mval"), self.ref_id(sv))
+            has = z3.Select(self.field_array("$mhas"), self.ref_id(sv))
+            it = z3.Select(vals, k)
+            facts = self.content_inv(it, ty.val)
+            if facts:
+                self.assume(z3.ForAll([k], z3.Implies(z3.Select(has, k), z3.And(*facts)), patterns=[it]))
 
     def resolve_ty(self, ty):
         if isinstance(ty, TObj) and ty.cls is None:
@@ -490,6 +544,13 @@ class Ctx:
             return x.sym
         if type(x).__name__ in ("Coro", "CtxMgr") or isinstance(x, (Closure, BoundMethod, ClassInfo, ExternalRef, ModuleInfo, Builtin, VTuple, VList, VDict, VSet, PartialFn, AbstractMethod, FunctionInfo, TypeOf, SeqMethod)):
             key = None
+            if isinstance(x, PartialFn):
+                # functools.partial objects are identified structurally: (function, positional arguments, keyword arguments)
+                try:
+                    key = ("partial", z3.simplify(self.to_val(x.fn).t).sexpr(), tuple(z3.simplify(self.to_val(a).t).sexpr() for a in x.args),
+                           tuple(sorted((k, z3.simplify(self.to_val(v).t).sexpr()) for k, v in x.kwargs.items())))
+                except Unsupported:
+                    key = None
             if isinstance(x, BoundMethod) and isinstance(x.self_val, SV):
                 # a bound method is identified by (function, receiver): two lookups of obj.m denote equal values
                 key = ("bound", x.fn.key, z3.simplify(x.self_val.t).sexpr())
